@@ -28,6 +28,7 @@ from props import c14
 from props import c15_inputs
 import t3_util as T3
 import u4_util as U4
+import w4_util as W4
 
 MODULE = 'UwgVerif.Props.C15'
 THEOREMS = [
@@ -134,6 +135,8 @@ def gen_ucm(rng, kind=None, stock=None, nb=None):
         blds.append(b)
     c['blds'] = blds
     c['circ'] = U4.circ_pick(rng)      # the canyon object rendered around the step / DEBUG logging on (no input)
+    # the `forc` argument carries every attribute of a real Forcing (rural dry bulb on either side of the canyon / 288 K)
+    c.update(W4.gen_forcing(rng, c['canTemp']))
     return c
 
 
@@ -198,7 +201,7 @@ def impl_ucm(pkg, c):
         mattrs = dict(b.get('wextra', {}), layerTemp=[b['indoorTemp'], b['indoorTemp']], solRec=F(0), sens=F(0))
         BEM.append(NS(**dict(b.get('bextra', {}), building=NS(**battrs), wall=NS(**wattrs), roof=NS(**rattrs),
                              mass=NS(**mattrs), frac=b['frac'], fl_area=b['flArea'])))
-    forc = NS(pres=c['pres'], hum=c['forcHum'])
+    forc = W4.full_forc(c, pres=c['pres'], hum=c['forcHum'])
     parameter = NS(cp=c['cp'])
     circ = c.get('circ', '')
     try:
@@ -313,6 +316,7 @@ def gen_ubl(rng, kind=None, branch=None):
     # circumstance of the step (no input of it): the UBLDef object rendered (repr / str) right before the step and
     # again after it, before ublTemp and the cells are read; DEBUG logging on around the step; both
     c['circ'] = U4.circ_pick(rng)
+    c.update(W4.gen_forcing(rng, c['ublTemp']))     # every other attribute of a real Forcing (no input of the step)
     return c
 
 
@@ -387,7 +391,7 @@ def impl_ubl(pkg, c, qubl=None):
         line += ' %s=%s' % (k, frac_list(c[k]))
     UCM = NS(sensHeat=c['sensHeat'], Q_ubl=q)
     rural = NS(sens=c['ruralSens'])
-    forc = NS(wind=c['wind'], dir=c['dir'], dif=c['dif'])
+    forc = W4.full_forc(c, wind=c['wind'], dir=c['dir'], dif=c['dif'])
     parameter = NS(cp=c['cp'], circCoeff=c['circCoeff'], g=c['g'], windMin=c['windMin'],
                    dayThreshold=c['dayThreshold'])
     simTime = NS(secDay=c['secDay'], dt=c['dt'])
@@ -556,23 +560,68 @@ def gen_indoor(rng, kind):
             c[k] = th + (tc - th) * F(rng.randint(0, 16), 16)
     c['indoorTemp'] = rq(rng, 285, 305, 4)
     c['mode'] = 'indoor-' + kind
+    c.update(W4.gen_forcing(rng, c['canTemp']))
     return c
+
+
+def gen_indoor_locked(rng, kind):
+    """Indoor-air states with a heating DEMAND but the plant locked out by the routine's own rule (heating only while
+    the canyon air is below 288 K): walls, ceiling, mass and canyon at or above 288 K (exactly 288 K in a share) and
+    below both heating set-points, no gains, no sun.  The room has no source then, whatever the rural station reads:
+    the rural dry bulb of the full `forc` stand-in lies below 288 K in most of these cases (heat island across the
+    switch), at 288 K, or above."""
+    c = c14.gen_case(rng, 'idle')
+    c['heatSetDay'] = rq(rng, 290, 294, 2)
+    c['heatSetNight'] = rng.choice([c['heatSetDay'], rq(rng, 289.5, 293, 2)])
+    th = min(c['heatSetDay'], c['heatSetNight'])
+    c['intHeatDay'] = c['intHeatNight'] = F(0)
+    c['solRec'] = rng.choice([F(0), rq(rng, 0, 300, 1)])
+    if c['solRec'] != 0:
+        c['shgc'] = F(0)
+    lo = F(288)
+    pick = lambda: lo + (th - lo) * F(rng.randint(0, 15), 16)         # in [288, th)
+    if kind == 'isothermal':
+        T = rng.choice([lo, pick(), pick()])
+        c['tWall'] = c['tMass'] = c['tCeil'] = c['canTemp'] = T
+    else:
+        for k in ('tWall', 'tMass', 'tCeil', 'canTemp'):
+            c[k] = pick()
+        if rng.random() < 0.3:
+            c['canTemp'] = lo
+    c['indoorTemp'] = rng.choice([c['canTemp'], rq(rng, 285, 300, 4)])
+    c['mode'] = 'indoor-locked-' + kind
+    c.update(W4.gen_forcing(rng, c['canTemp'], rng.choice(['across', 'across', 'across', 'island', 'at288', 'same'])))
+    return c
+
+
+def impl_indoor(pkg, c):
+    """c14's adapter of the REAL BEMCalc, with the full Forcing stand-in of the case"""
+    with W4.bem_forcing(pkg, c):
+        return c14.impl_bem(pkg, c)
 
 
 def indoor_oracle(c, r):
     if isinstance(r, str):
         return None
-    if r['Qhvac'] != 0 or r['Qheat'] != 0 or r['sensCoolDemand'] != 0:
+    # heating is a legitimate source only while the canyon air is below 288 K (the switch of the routine, `heatBelow288`
+    # of the Lean model): heat delivered with the canyon at or above 288 K is NOT excused as "a system acts"
+    heating_ok = c['canTemp'] < 288
+    if r['Qhvac'] != 0 or r['sensCoolDemand'] != 0 or (r['Qheat'] != 0 and heating_ok):
         return None                           # a system (or free cooling) acts: C14's subject
     if r['int_heat'] != 0 or r['fluxSolar'] != 0:
         return None
     ts = [c['tWall'], c['tMass'], c['tCeil'], c['canTemp']]
+    extra = ''
+    if r['Qheat'] != 0:
+        extra = ' (heating %s W/m2 delivered although the canyon air is at %s K >= 288 K%s)' % (
+            float(r['Qheat']), float(c['canTemp']),
+            ('; rural dry bulb forc.temp = %s K' % float(c['forc_temp'])) if 'forc_temp' in c else '')
     if len(set(ts)) == 1 and r['indoor_temp'] != ts[0]:
-        return 'isothermal room at %s without sources moved to %s' % (
-            float(ts[0]), float(r['indoor_temp']))
+        return 'isothermal room at %s without sources moved to %s%s' % (
+            float(ts[0]), float(r['indoor_temp']), extra)
     if not (min(ts) <= r['indoor_temp'] <= max(ts)):
-        return 'source-free indoor temperature %s outside [%s, %s]' % (
-            float(r['indoor_temp']), float(min(ts)), float(max(ts)))
+        return 'source-free indoor temperature %s outside [%s, %s]%s' % (
+            float(r['indoor_temp']), float(min(ts)), float(max(ts)), extra)
     return None
 
 
@@ -688,12 +737,34 @@ def live_wrappers(sink, tol=1e-9, twin_every=12):
                         msg = 'ubl: heat removed but value %r above max %r' % (x, max(ts))
             sink('ubl', label, ('day' if day else 'night') +
                  ('-heated' if UCM.Q_ubl >= 0 else '-cooled'), msg)
+        bm = importlib.import_module('uwg.building')
+        o_bem = bm.Building.BEMCalc
+
+        def bemw(self, UCM, BEM, forc, parameter, simTime):
+            # the indoor node and the routine's own switch (heating only while the CANYON air is below 288 K, cooling
+            # only while it is above): where the rural station and the canyon lie relative to 288 K is counted, and heat
+            # / cooling delivered on the wrong side of the switch is a source the room must not have
+            can, rural = UCM.canTemp, forc.temp
+            o_bem(self, UCM, BEM, forc, parameter, simTime)
+            msg = None
+            if can >= 288. and getattr(self, 'Qheat', 0.) != 0.:
+                msg = ('indoor: heating of %r W/m2 delivered (room at %r K after the step) although the canyon air is at '
+                       '%r K >= 288 K (plant locked out); rural dry bulb forc.temp = %r K' % (
+                           self.Qheat, self.indoor_temp, can, rural))
+            elif can <= 288. and getattr(self, 'Qhvac', 0.) != 0.:
+                msg = ('indoor: cooling energy of %r W/m2 used although the canyon air is at %r K <= 288 K (plant locked '
+                       'out); rural dry bulb forc.temp = %r K' % (self.Qhvac, can, rural))
+            side = 'canyon%s288,rural%s288' % ('>=' if can >= 288. else '<', '>=' if rural >= 288. else '<')
+            sink('indoor-switch', label, side, msg)
+        bm.Building.BEMCalc = bemw
         um.UCMDef.UCModel = uc
         ub.UBLDef.ublmodel = ublw
 
         def undo():
             um.UCMDef.UCModel = o_uc
             ub.UBLDef.ublmodel = o_ub
+            if bm.Building.BEMCalc is bemw:        # (c14.live_runs restores its own wrapper before calling us)
+                bm.Building.BEMCalc = o_bem
         return undo
     return install
 
@@ -717,6 +788,8 @@ LOWRISE = [
     ('lowrise-4m-school-hospital', 4.0, [('primaryschool', 'pre80', 0.6), ('hospital', 'new', 0.4)]),
     ('lowrise-2.5m-everything-clamped', 2.5, [('midriseapartment', 'pre80', 0.5), ('smalloffice', 'new', 0.5)]),
 ]
+SHOULDER = [('toronto-14-may-shoulder-season', 5, 14), ('toronto-25-sep-shoulder-season', 9, 25),
+            ('toronto-2-jun-shoulder-season', 6, 2)]
 RUN_CONFIG = {}
 
 
@@ -729,6 +802,10 @@ def stock_runs(quick):
     for label, bld in stocks:
         runs.append(('stock-' + label,) + _SGP + (1, None, 0, setup_stock(bld)))
         RUN_CONFIG['stock-' + label] = {'bld': bld}
+    # shoulder season of a temperate climate: rural station and canyon on different sides of the 288 K plant switch
+    for label, month, day in (SHOULDER[:1] if quick else SHOULDER):
+        runs.append((label,) + _TOR + (month, '5A', 0, (lambda d: lambda m, uwg_pkg: setattr(m, 'day', d))(day)))
+        RUN_CONFIG[label] = {'month': month, 'day': day, 'zone': '5A'}
     for label, h, bld in (LOWRISE[:2] if quick else LOWRISE):
         runs.append((label,) + _SGP + (1, None, 0, setup_stock(bld, bldheight=h)))
         RUN_CONFIG[label] = {'bld': bld, 'bldheight': h}
@@ -880,7 +957,7 @@ def replay(chk, path):
         print('result :', ucm_fmt(r)[:300])
     elif 'BEMCalc' in what:
         c = unjson(v['case'])
-        r = c14.impl_bem(pkg, c)
+        r = impl_indoor(pkg, c)
         msg = indoor_oracle(c, r)
         print('case   :', c14.line_of(c)[:600])
         print('result :', c14.fmt_out(r)[:300])
@@ -905,6 +982,18 @@ def run(chk):
     rng = chk.rng
     quick = chk.tier == 'quick'
 
+    def guard(failed, text, tie_mismatches):
+        """Coverage guard of a generator.  When the tie of the same routine already has mismatches the implementation
+        answers differently from the model, so branch counts measured on its results say nothing about the generator:
+        the guard becomes a note and the report of the broken tie (with its failing inputs) goes out."""
+        if not failed:
+            return
+        if tie_mismatches:
+            chk.notes.append('coverage guard not enforced (%d mismatches in the tie of the same routine): %s' % (
+                len(tie_mismatches), text))
+            return
+        raise core.Infra(text)
+
     # ---------------------------------------------------------------- canyon node
     n = 500 if quick else 5000
     cases = [gen_ucm(rng) for _ in range(n)] + ucm_edge(rng)
@@ -916,7 +1005,7 @@ def run(chk):
         kinds[line] = '%s/nb=%d/%s%s' % (c['kind'], len(c['blds']), ucm_shape(c),
                                          '/' + r.replace(' ', '-') if isinstance(r, str) else '')
         pairs.append((line, ucm_fmt(r)))
-    chk.correspond(
+    cmism = chk.correspond(
         'UCMDef.UCModel~ucModel', 'C15', pairs,
         rule='fractionised UCMDef.UCModel (object built without its constructor) vs Lean '
              '`Uwg.Air.ucModel` at Q; 0-5 (sometimes 30) building archetypes; explored beside the numbers: every '
@@ -964,24 +1053,36 @@ def run(chk):
     for need in ('sum=1', 'sum<1', 'sum>1'):
         for low in ('', '+clamped-floor'):
             k2 = 'fixedpoint-or-range/' + need + low
-            if br.get(k2, 0) < (8 if quick else 40):
-                raise core.Infra('canyon generator no longer builds isothermal / source-free states with %s often '
-                                 'enough (%d)' % (k2, br.get(k2, 0)))
+            guard(br.get(k2, 0) < (8 if quick else 40),
+                  'canyon generator no longer builds isothermal / source-free states with %s often '
+                  'enough (%d)' % (k2, br.get(k2, 0)), cmism)
 
     # ---------------------------------------------------------------- indoor node
     n = 150 if quick else 1500
     icases = [c14.gen_case(rng, m) for m in ('cool', 'heat', 'idle', 'free') for _ in range(n // 5)]
     icases += [gen_indoor(rng, 'isothermal') for _ in range(n)]
     icases += [gen_indoor(rng, 'nosource') for _ in range(n)]
-    ires = [c14.impl_bem(pkg, c) for c in icases]
+    for c in icases:
+        if 'forc_temp' not in c:
+            c.update(W4.gen_forcing(rng, c['canTemp']))
+    nl = 40 if quick else 400
+    icases += [gen_indoor_locked(rng, 'isothermal') for _ in range(nl)]
+    icases += [gen_indoor_locked(rng, 'nosource') for _ in range(nl)]
+    ires = [impl_indoor(pkg, c) for c in icases]
     keep = [(c, r) for c, r in zip(icases, ires) if not (isinstance(r, str) and r.startswith('skip'))]
-    icls = {c14.line_of(c): c['mode'] for c, r in keep}
-    chk.correspond(
+    icls = {c14.line_of(c): c['mode'] + '/' + W4.rural_side(c) for c, r in keep}
+    imism = chk.correspond(
         'Building.BEMCalc(indoor balance)~bemCalc', 'C14',
         [(c14.line_of(c), c14.fmt_out(r)) for c, r in keep],
         rule='fractionised Building.BEMCalc vs Lean `Uwg.Hvac.bemCalc` (model shared with C14) on '
              'isothermal / source-free indoor states with the HVAC at rest, plus states in every '
-             'HVAC branch; exact equality of 23 attributes',
+             'HVAC branch; exact equality of 23 attributes; round 6: the `forc` stand-in carries EVERY attribute of '
+             'uwg.forcing.Forcing (deepTemp, waterTemp, infra, uDir, hum, pres, temp, rHum, dir, dif, prec, wind; the '
+             'model sees only pres and waterTemp) with the rural dry bulb on the other side of 288 K than the canyon '
+             '(by 0.01 .. 6 K), on the same side, exactly 288 K, or a 0.1-2 K heat island below the canyon (branches '
+             '.../rural-across-288, rural-at-288, rural-same-side); family indoor-locked-*: walls, ceiling, mass and '
+             'canyon in [288 K, heating set-point) - exactly 288 K in a share - without gains: a heating demand with '
+             'the plant locked out by the canyon temperature',
         classify=lambda line, impl: icls[line])
     bad = 0
     br = {}
@@ -992,6 +1093,9 @@ def run(chk):
         active = r['Qhvac'] != 0 or r['Qheat'] != 0 or r['sensCoolDemand'] != 0
         k = c['mode'] + ('/hvac-acts' if active else '')
         br[k] = br.get(k, 0) + 1
+        if c['mode'].startswith('indoor-'):
+            k = c['mode'] + '/' + W4.rural_side(c)
+            br[k] = br.get(k, 0) + 1
         if msg:
             bad += 1
             if bad <= 3:
@@ -999,9 +1103,14 @@ def run(chk):
                               case=c14.case_json(c), observed=msg, expected='fixed point / range')
     chk.direct('C15-oracle(BEMCalc indoor balance, exact)', len(keep), len(keep),
                'isothermal fixed point and source-free range of the indoor air node when neither '
-               'system (nor free cooling) acts', mismatches=bad, branches=br)
-    if br.get('indoor-isothermal', 0) < n // 2 or br.get('indoor-nosource', 0) < n // 2:
-        raise core.Infra('indoor generator no longer keeps the HVAC at rest: %s' % br)
+               'system (nor free cooling) acts; heat delivered while the canyon air is at or above 288 K does not '
+               'count as "a system acts" (the routine heats only below 288 K): the indoor-locked-* states - a heating '
+               'demand, canyon in [288 K, set-point), rural dry bulb mostly below 288 K - must keep their common '
+               'temperature / stay in range', mismatches=bad, branches=br)
+    guard(br.get('indoor-isothermal', 0) < n // 2 or br.get('indoor-nosource', 0) < n // 2 or
+          br.get('indoor-locked-isothermal', 0) < nl // 2 or br.get('indoor-locked-nosource', 0) < nl // 2 or
+          br.get('indoor-locked-isothermal/rural-across-288', 0) < nl // 4,
+          'indoor generator no longer keeps the HVAC at rest: %s' % br, imism)
 
     # ---------------------------------------------------------------- boundary layer
     n = 500 if quick else 5000
@@ -1014,7 +1123,7 @@ def run(chk):
             continue
         ucls[line] = '%s/%s' % (c['kind'], ubl_branch(c, r))
         upairs.append((line, ubl_fmt(r)))
-    chk.correspond(
+    umism = chk.correspond(
         'UBLDef.ublmodel~ublModel', 'C15', upairs,
         rule='fractionised UBLDef.ublmodel (object built by its own constructor, then given the '
              'generated state) vs Lean `Uwg.Air.ublModel` at Q with the shared stub for '
@@ -1051,8 +1160,7 @@ def run(chk):
                'Q_ubl (paired runs) on the exact results of the real ublmodel',
                mismatches=bad, branches=br)
     for need in ('day-forced', 'day-convective', 'night'):
-        if br.get(need, 0) < 30:
-            raise core.Infra('UBL generator no longer reaches branch %s (%s)' % (need, br))
+        guard(br.get(need, 0) < 30, 'UBL generator no longer reaches branch %s (%s)' % (need, br), umism)
     npairs = night_cases(rng, pkg, 150 if quick else 1500)
     chk.correspond('UBLDef.nightforc~nightforc', 'C15', npairs,
                    rule='the static UBLDef.nightforc called directly vs Lean `Uwg.Air.nightforc`; '
@@ -1123,7 +1231,11 @@ def run(chk):
                    'thorough: thirty archetypes), runs lowrise-* an average building height below the floor height '
                    'of (part of) the stock; canyon-twin = at every 12th UCModel call the same UCMDef and BEM objects '
                    'are deep-copied, sources removed and every exchanged temperature set to T (then into a 0.01 K '
-                   'band): the real UCModel must return T (stay in the band)' % sorted(done),
+                   'band): the real UCModel must return T (stay in the band); indoor-switch = every BEMCalc call: no heating '
+                   'delivered while the canyon air is at or above 288 K, no cooling energy while it is at or below (the '
+                   'switch of the routine reads the CANYON), counted by the side of 288 K on which canyon and rural '
+                   'station lie; runs toronto-*-shoulder-season start in mid May / late September / June, when the '
+                   'two straddle 288 K' % sorted(done),
                    mismatches=len(live_bad), branches=live)
     circumstance_ties(chk, quick)
     chk.assumptions.append(
